@@ -329,6 +329,33 @@ func (g *Gen) generate(size int, withTest bool) ([]SrcFile, bool) {
 			g.add(-1, fmt.Sprintf("type %s struct {\n\t*%s\n\t*%s\n}", m, a, b))
 		}
 	}
+	// identically spelled interface literals with different meaning: the same text `interface{ cyput(T) }` under type
+	// parameters with different constraints (as generic named interface, as literal in a generic function body, as
+	// constraint), and a used type whose unexported method satisfies only one of them (rule 8.2 must not depend on
+	// which spelling is met first)
+	if r.Chance(45) {
+		cons := []string{"~int", "~string", "~float64"}
+		for k := len(cons) - 1; k > 0; k-- {
+			j := r.Intn(k + 1)
+			cons[k], cons[j] = cons[j], cons[k]
+		}
+		nI := 2 + r.Intn(2)
+		for c := 0; c < nI; c++ {
+			switch r.Intn(3) {
+			case 0:
+				g.add(-1, fmt.Sprintf("type cyi%d[T %s] interface {\n\tcyput(T)\n}", c, cons[c]))
+			case 1:
+				g.add(-1, fmt.Sprintf("func cyif%d[T %s]() {\n\tvar x interface{ cyput(T) }\n\t_ = x\n}", c, cons[c]))
+				g.add(-1, fmt.Sprintf("var _ = cyif%d[%s]", c, strings.TrimPrefix(cons[c], "~")))
+			default:
+				g.add(-1, fmt.Sprintf("func cyig%d[T %s, U interface{ cyput(T) }](u U) {}", c, cons[c]))
+			}
+		}
+		arg := strings.TrimPrefix(cons[r.Intn(nI)], "~")
+		g.add(-1, "type cyn struct{}")
+		g.add(-1, fmt.Sprintf("func (cyn) cyput(x %s) {}", arg))
+		g.add(-1, "var _ cyn")
+	}
 	// aliases
 	if r.Chance(50) {
 		g.add(-1, "type a0 = "+g.pick(g.structs))
@@ -1032,6 +1059,45 @@ type keep struct {
 }
 
 func Use() { var k keep; _ = k }
+`}},
+		// rule 8.2 with identically spelled generic interfaces: names.put satisfies only strBox (T = string does not
+		// satisfy ~int); it must be used in every declaration order
+		"samespelling": {{Name: "a.go", Src: `package p
+
+type intBox[T ~int] interface {
+	put(T)
+}
+
+type strBox[T ~string] interface {
+	put(T)
+}
+
+type names struct{}
+
+func (names) put(s string) {}
+
+var _ names
+`}},
+		// the same over two files (file order matters as well)
+		"samespelling2": {{Name: "a.go", Src: `package p
+
+func first[T ~int]() {
+	var x interface{ put(T) }
+	_ = x
+}
+
+var _ = first[int]
+`}, {Name: "b.go", Src: `package p
+
+type strBox[T ~string] interface {
+	put(T)
+}
+
+type names struct{}
+
+func (names) put(s string) {}
+
+var _ names
 `}},
 		// rule 10.1 / 5.1 / 8.2 in one small package
 		"mixed": {{Name: "a.go", Src: `package p
